@@ -98,7 +98,7 @@ def extra_shapes():
     ]
 
 
-def check_targets(x, lab, bad, backend, ordered=True, loose=False):
+def check_targets(x, lab, bad, backend, ordered=True, loose=False, origin=None):
     import polars as pl
 
     def RS(r1, r2):
@@ -186,6 +186,15 @@ def check_targets(x, lab, bad, backend, ordered=True, loose=False):
             bad.append(f"{lab}: {col.name}.export(Polars()) = {ser.dtype} {got[:4]} differs from the frame column {want.dtype} {exp[:4]}")
         if ser.name != col.name:
             bad.append(f"{lab}: {col.name}.export(Polars()) is named {ser.name!r}")
+        # the same column reached by indexing the derived table with the ORIGIN table's column object
+        if origin is not None and col._uuid in origin._cache.cols:
+            try:
+                via = x[origin._cache.cols[col._uuid]]
+                ser2 = via.export(pdt.Polars())
+                if ser2.name != col.name or ser2.dtype != ser.dtype or not RS([(v,) for v in ser2.to_list()], [(v,) for v in exp]):
+                    bad.append(f"{lab}: x[origin.{origin._cache.cols[col._uuid].name}].export(Polars()) = {ser2.name!r} {ser2.to_list()[:5]} differs from the column {col.name!r} of the exported frame {exp[:5]}")
+            except (pdt.errors.SubqueryError, pdt.errors.NotSupportedError, pdt.errors.ColumnNotFoundError):
+                pass
     # re-import
     re = pdt.Table(base, name="re")
     b2 = re >> pdt.export(pdt.Polars())
@@ -245,7 +254,7 @@ def make_x2(backend, kind, first):
                     continue
                 n += 1
                 try:
-                    check_targets(x, lab, bad, backend, ordered=pl_[0], loose=pl_[1])
+                    check_targets(x, lab, bad, backend, ordered=pl_[0], loose=pl_[1], origin=ctx.t)
                 except Exception as e:  # noqa: BLE001
                     bad.append(f"{lab}: a target raises {type(e).__name__}: {str(e)[:200]}")
         return _enum_outcome(f"[{backend},{kind}] all export targets / ColExpr.export / re-import agree with export(Polars()) for pipelines starting with {S[first].label if first is not None else '(source)'}", n, bad, allow_empty=True)
